@@ -7,8 +7,8 @@ command -v g++ >/dev/null
 test -x /venv/bin/python
 test -f /opt/veriftools/tla/tla2tools.jar
 /venv/bin/python -c "import lark, jinja2, tomlkit, hypothesis" 
-for f in spec/*.tla; do
+( cd spec && for f in *.tla; do
   java -cp /opt/veriftools/tla/tla2tools.jar:/opt/veriftools/tla/CommunityModules-deps.jar tla2sany.SANY "$f" >/dev/null 2>&1 || { echo "SANY failed on $f"; exit 1; }
-done
+done )
 mkdir -p evidence
 echo setup ok
